@@ -94,6 +94,18 @@ CHECKS = {
              'the sheet code reads (stub fidelity listed in the evidence); counterexamples are replayed '
              'with real rule objects from an empty sheet through public calls (history found by search).',
         design='3 C09'),
+    'C11': dict(
+        text='One sheet holding a rule of every kind is built; each of 55 public mutators (text setters of sheet, every rule '
+             'kind, declaration block, property, value, selector, selector list, media list, media query; insert / add; '
+             'namespace mapping; encoding) is called with new content written from templates whose holes are filled '
+             'with solver variables over all of Unicode, so the solver chooses the stage at which the call is rejected '
+             '(at once, after an accepted part, inside a nested object). On every path that ends in an xml.dom.DOMException '
+             'the projection of the whole sheet, its serialisation, namespace mapping, encoding and the text of the '
+             'target must equal their value before the call. insertRule / deleteRule with a symbolic index; objects '
+             'created read-only: every mutator must leave them unchanged.',
+        note='Bounded: one fixed pre-state sheet, 200 templates, holes of length 1 (quick) / <= 2 (thorough). Trusted: z3, '
+             'the projection in harness/projection.py.',
+        design='3 C11'),
     'C12': dict(
         text='Bounded symbolic model checking of the frame condition and of two-call composition on the real '
              'code: for every parser context and every infix up to the bound, under each combination of '
